@@ -178,6 +178,37 @@ def _model_array(ctx, name, shape, dtype):
     return Arr(shp, fn, dtype, name=name)
 
 
+class FPDecl(object):
+    """IEEE double input: the model value is stored as the exact decimal repr of the double"""
+    def __init__(self, name, fpv):
+        self.name, self.fpv = name, fpv
+
+    def concretise(self, model):
+        v = model.eval(self.fpv.t, model_completion=True)
+        if z3.is_fprm_value(v) or not z3.is_fp_value(v):
+            return {'fp64': 'nan'}
+        if v.isNaN():
+            return {'fp64': 'nan'}
+        if v.isInf():
+            return {'fp64': '-inf' if v.isNegative() else 'inf'}
+        sig, exp = v.significand_as_long(), v.exponent_as_long(biased=False)
+        import math
+        x = math.ldexp(float((1 << 52) + sig if not v.isSubnormal() else sig), (exp if not v.isSubnormal() else -1022) - 52)
+        if v.isNegative():
+            x = -x
+        return {'fp64': repr(x)}
+
+
+def fp64(ctx, name):
+    """an arbitrary IEEE-754 double (any bit pattern); in a replay the python float of the model"""
+    if getattr(ctx, 'replay', False):
+        m = ctx.model.get(name)
+        return float(m['fp64']) if isinstance(m, dict) and 'fp64' in m else 0.0
+    v = sym.FPV(z3.FP(name, sym.FP64))
+    ctx.inputs.append(FPDecl(name, v))
+    return v
+
+
 def real(ctx, name, *facts):
     if getattr(ctx, 'replay', False):
         v = _from_model(ctx, name)
